@@ -37,6 +37,9 @@ struct Shared {
     violations: Vec<String>,
     bodies: Vec<(u64, String)>,
     written: usize,
+    /// the flush of freshly written items completes only at the second attempt (a socket-like transport)
+    hesitant_flush: bool,
+    flush_attempted: bool,
     /// (id, trace id, span id, sampled, deadline) of every Request written; (id, trace id, span id, sampled) of every Cancel
     req_ctx: Vec<(u64, u128, u64, bool, std::time::Instant)>,
     cancel_ctx: Vec<(u64, u128, u64, bool)>,
@@ -83,6 +86,7 @@ impl Sink<ClientMessage<String>> for T {
         }
         s.granted = false;
         s.written += 1;
+        s.flush_attempted = false;
         if let ClientMessage::Request(_) = &m {
             // C11: requests transmitted and neither cancelled nor answered (answers counted from the moment the peer sent
             // them, which can only under-estimate what the dispatch still tracks)
@@ -111,6 +115,11 @@ impl Sink<ClientMessage<String>> for T {
     }
     fn poll_flush(self: Pin<&mut Self>, _: &mut Context<'_>) -> Poll<Result<(), Self::Error>> {
         let mut s = self.0.lock().unwrap();
+        if s.hesitant_flush && s.flushed != s.written && !s.flush_attempted {
+            s.flush_attempted = true; // "flushing": the next attempt completes (the driver polls again by itself)
+            return Poll::Pending;
+        }
+        s.flush_attempted = false;
         s.flushed = s.written;
         Poll::Ready(Ok(()))
     }
@@ -194,7 +203,7 @@ impl Run {
                 Poll::Pending => {
                     // C14: control went back to the executor: nothing written may remain unflushed
                     let mut s = self.shared.lock().unwrap();
-                    if s.flushed != s.written && !s.violations.iter().any(|v| v.starts_with("C14: went idle")) {
+                    if s.flushed != s.written && !s.flush_attempted && !s.violations.iter().any(|v| v.starts_with("C14: went idle")) {
                         let n = s.written - s.flushed;
                         s.violations.push(format!("C14: went idle (Pending) with {n} written item(s) not flushed"));
                     }
@@ -254,6 +263,9 @@ fn check(run: &Run, dropped_client: bool, desc: &str) -> Vec<String> {
                 }
             }
         }
+    }
+    if s.flushed != s.written {
+        errs.push(format!("C14: quiescent with {} written item(s) never flushed although the transport completes a flush at the latest on the second attempt; wire {wire:?}; {desc}", s.written - s.flushed));
     }
     for (id, body) in &s.bodies {
         if *body != format!("req {id}") {
@@ -331,9 +343,10 @@ fn explore(max_calls: usize) -> usize {
                 for polls in 0..(1u32 << steps) {
                     for capacity in [1usize, 2] {
                         for gated in [false, true] {
-                            for drop_client in [false, true] {
-                                let desc = format!("calls {n}, fates {fate:?}, order {perm:?}, polls {polls:#b}, capacity {capacity}, gated {gated}, drop_client {drop_client}");
+                            for (drop_client, hesitant_flush) in [(false, false), (true, false), (false, true), (true, true)] {
+                                let desc = format!("calls {n}, fates {fate:?}, order {perm:?}, polls {polls:#b}, capacity {capacity}, gated {gated}, drop_client {drop_client}, flush completes at the second attempt {hesitant_flush}");
                                 let mut run = Run::new(capacity);
+                                run.shared.lock().unwrap().hesitant_flush = hesitant_flush;
                                 let mut step = 0;
                                 for _ in 0..n {
                                     run.create();
@@ -402,7 +415,7 @@ fn client_wire_small() {
     let rt = tokio::runtime::Builder::new_current_thread().enable_time().start_paused(true).build().unwrap();
     let _g = rt.enter();
     let n = explore(2);
-    println!("VERIF-BOUNDED client_wire evaluations={n} bound=up to 2 calls x 4 fates x fate orders x poll placements x capacity 1|2 x gated|not x handles dropped|kept");
+    println!("VERIF-BOUNDED client_wire evaluations={n} bound=up to 2 calls x 4 fates x fate orders x poll placements x capacity 1|2 x gated|not x handles dropped|kept x flush immediate|at the second attempt");
 }
 
 #[test]
@@ -410,5 +423,5 @@ fn client_wire_three_calls() {
     let rt = tokio::runtime::Builder::new_current_thread().enable_time().start_paused(true).build().unwrap();
     let _g = rt.enter();
     let n = explore(3);
-    println!("VERIF-BOUNDED client_wire evaluations={n} bound=up to 3 calls x 4 fates x fate orders x poll placements x capacity 1|2 x gated|not x handles dropped|kept");
+    println!("VERIF-BOUNDED client_wire evaluations={n} bound=up to 3 calls x 4 fates x fate orders x poll placements x capacity 1|2 x gated|not x handles dropped|kept x flush immediate|at the second attempt");
 }
